@@ -130,7 +130,7 @@ class Gen:
 			getattr(self, "op_" + c)()
 		# let every queued burst reach its frame, fault-free
 		self.ops.append({"op": "idle", "dt": (self.max_adv + 3) * P_NS})
-		cfg = {"trx": trx, "clck_start": start, "ind_period": period, "bind_addr": "0.0.0.0", "mode": "coarse"}
+		cfg = {"trx": trx, "clck_start": start, "ind_period": period, "bind_addr": rng.choice(["0.0.0.0", "0.0.0.0", "127.0.0.1", "10.9.8.7"]), "mode": "coarse"}
 		return {"engine": "um", "seed": None, "config": cfg, "ops": self.ops}
 
 	# ---- helpers
@@ -676,9 +676,12 @@ class World:
 		elif o == "rawdata":
 			self.send_to_trx(t, "data", bytes.fromhex(op["hex"]), op)
 		elif o == "burst":
-			fn = (self.cur_fn + op["adv"]) % (1 << 32)
-			if op["adv"] < 0 and self.cur_fn + op["adv"] < 0:
-				fn = 0
+			# an L1 numbers frames modulo the hyperframe; only the deliberately absurd advances
+			# (>= 1000 frames) are sent as they are, possibly beyond the hyperframe
+			if -1000 < op["adv"] < 1000:
+				fn = (self.cur_fn + op["adv"]) % HYPER
+			else:
+				fn = (self.cur_fn + op["adv"]) % (1 << 32)
 			bits = burst_bits(op)
 			if op["kind"].startswith("TK"):
 				which = op["kind"][2:]
